@@ -109,12 +109,32 @@ class Net(object):
     def all_connected(self):
         return all(self.ca(i) is not None for i in range(len(self.clients)))
 
+    def packet(self, stack, data):
+        """every third packet is built in the application's scratch buffer, which is overwritten as soon as the packet is
+        queued (before the stack is serviced): a queued packet is what it was when it was queued"""
+        from ioflo.aio.proto import packeting
+        if self.pid % 3 == 1:
+            if not hasattr(self, "scratch"):
+                self.scratch = bytearray()
+            self.scratch[:] = data
+            pkt = packeting.Packet(stack=stack, packed=self.scratch)
+            self.nscratch = getattr(self, "nscratch", 0) + 1
+            self.clobber = True
+            return pkt
+        return packeting.Packet(stack=stack, packed=data)
+
+    def clobber_scratch(self):
+        if getattr(self, "clobber", False):
+            self.scratch[:] = b"#" * len(self.scratch)
+            self.clobber = False
+
     def queue_up(self, i, n):
         from ioflo.aio.proto import packeting
         self.pid += 1
         data = body(self.pid, n)
         c = self.clients[i]
-        c.transmit(packeting.Packet(stack=c, packed=data))
+        c.transmit(self.packet(c, data))
+        self.clobber_scratch()
         self.to_server[i].append(data)
 
     def queue_down(self, i, n):
@@ -124,7 +144,8 @@ class Net(object):
             return
         self.pid += 1
         data = body(self.pid, n)
-        self.server.transmit(packeting.Packet(stack=self.server, packed=data), ca)
+        self.server.transmit(self.packet(self.server, data), ca)
+        self.clobber_scratch()
         self.to_client[i].append(data)
 
     def broadcast(self, n, again):
@@ -362,6 +383,7 @@ def loopback_case(ctx, rng, idx):
             if partial["server"]:
                 ctx.hit("loopback_server_partial_sends", partial["server"])
             ctx.hit("loopback_packets", sum(len(q) for q in net.to_server + net.to_client))
+            ctx.hit("packets_built_in_a_reused_buffer", getattr(net, "nscratch", 0))
             if idx == 0:
                 ctx.sample(dict(desc, packet_lengths=sizes[:20], first_calls=loop.trace[:25]))
         except Inconclusive:
@@ -552,6 +574,7 @@ def run(ctx):
     for k in range(KD):
         jobs.append({"what": "doubles", "k": k, "K": KD, "D": ctx.pick(4, 5)})
     ctx.shard(jobs, timeout=ctx.pick(120, 1500))
+    ctx.floor("packets_built_in_a_reused_buffer", ctx.pick(200, 5000))
     ctx.floor("loopback_cases", ctx.pick(40, 1500))
     ctx.floor("loopback_packets", ctx.pick(1500, 60000))
     ctx.floor("loopback_client_partial_sends", ctx.pick(20, 800))
